@@ -115,6 +115,10 @@ func (sb *schemaBuilder) getTextMarshalerType(typ reflect.Type) (graphql.Type, e
 		Type: "string",
 		Unwrapper: func(source interface{}) (interface{}, error) {
 			i := reflect.ValueOf(source)
+			if !i.IsValid() {
+				// no value at all: an entry a batch field func left out
+				return nil, nil
+			}
 			if i.Kind() == reflect.Ptr && i.IsNil() {
 				return "", nil
 			}
